@@ -164,6 +164,8 @@ def run(ck, rng, tier):
         else:
             _, algo, nth = mt
             ck.case(mt)
+            if any(v for k_, v in o.items() if k_.startswith("caller_stream_perturbed")):
+                ck.fail("BootstrapRandomGroupsCV", "caller_stream_perturbed", "after srand_(s) and a cross-validation call with %d threads the caller draws other numbers than after srand_(s) alone: the workers consumed the caller's stream (%s)" % (nth, algo[1]), {"algo": algo[0], "config": algo[1], "threads": nth})
             preds = [o[k] for k in sorted(o) if k.startswith("pred") and not k.endswith(".shape")]
             if any(p != preds[0] for p in preds):
                 ck.fail("BootstrapRandomGroupsCV", "run_to_run_nondeterminism", "repeated runs with %d threads differ (%s)" % (nth, algo[1]), {"algo": algo[0], "config": algo[1], "threads": nth})
